@@ -11,6 +11,7 @@ package headers
 
 //@ props C07 C16
 //@ func parseRangeNumber
+//@   pure
 //@   nopanic
 //@   ensures !ok ==> num == 0 && endIndex == 0
 //@   ensures (len(numStr) == 0 || numStr[0] == '-' || !(specIsDigit(numStr[0]) || specIsSp(numStr[0]))) ==> !ok
@@ -28,12 +29,14 @@ package headers
 
 //@ props C07 C16
 //@ func validateRange
+//@   pure
 //@   nopanic
 //@   ensures result == nil <==> (0 <= start && start <= end && end < dataSize)
 //@   ensures result != nil ==> result == ErrRangeValueOutOfBounds
 
 //@ props C07 C16
 //@ func rangeHeader.SliceSize
+//@   pure
 //@   nopanic
 //@   ensures err == nil ==> 0 <= start && start <= end && end < dataSize
 //@   ensures err == nil && r.start >= 0 && r.end >= 0 ==> start == r.start && end == r.end
@@ -43,7 +46,72 @@ package headers
 
 //@ props C07 C16
 //@ func parseRangeHeader
+//@   pure
 //@   nopanic
 //@   ensures result1 == nil ==> len(rangeStr) >= 7 && rangeStr[0:6] == "bytes="
 //@   ensures result1 == nil ==> result0.start >= -1 && result0.end >= -1 && !(result0.start == -1 && result0.end == -1)
 //@   ensures result1 != nil ==> result0.start == 0 && result0.end == 0
+
+// ---------------------------------------------------------------- Cache-Control / Expires
+
+// Cache-Control is specified at the level of string identities: sid(s) is the
+// content of s as a value, splitat(h, ",", k) the k-th comma-separated piece of
+// the header with identity h, trimspace / tolower / hasprefix / cutprefix /
+// decval the library functions on identities (assumed models of package strings
+// and strconv link the code to them).
+//@ spec func specDir(h int, k int) int = tolower(trimspace(splitat(h, ",", k)))
+//@ spec func specForbids(d int) bool = d == sid("no-cache") || d == sid("no-store") || d == sid("private")
+//@ spec func specIsMaxAge(d int) bool = hasprefix(d, "max-age=")
+//@ spec func specMaxAge(d int) int = decval(cutprefix(d, "max-age="))
+
+//@ props C16 C04 C03
+//@ func parseCacheControl
+//@   pure
+//@   nopanic
+//@   ensures [C04] result1 == nil ==> (forall k int :: 0 <= k && k < splitlen(sid(ccHeader), ",") && specForbids(specDir(sid(ccHeader), k)) ==> result0.noCache)
+//@   ensures [C04] result1 == nil ==> (forall k int :: 0 <= k && k < splitlen(sid(ccHeader), ",") && specIsMaxAge(specDir(sid(ccHeader), k)) && specMaxAge(specDir(sid(ccHeader), k)) < 1 ==> result0.noCache)
+//@   ensures [C04] result1 == nil && result0.noCache ==> (exists k int :: 0 <= k && k < splitlen(sid(ccHeader), ",") && (specForbids(specDir(sid(ccHeader), k)) || (specIsMaxAge(specDir(sid(ccHeader), k)) && specMaxAge(specDir(sid(ccHeader), k)) < 1)))
+//@   loop 1 invariant rangeidx <= len(split) && len(split) == splitlen(sid(ccHeader), ",")
+//@   loop 1 invariant forall k int :: 0 <= k && k < rangeidx && specForbids(specDir(sid(ccHeader), k)) ==> cc.noCache
+//@   loop 1 invariant forall k int :: 0 <= k && k < rangeidx && specIsMaxAge(specDir(sid(ccHeader), k)) && specMaxAge(specDir(sid(ccHeader), k)) < 1 ==> cc.noCache
+//@   loop 1 invariant cc.noCache ==> (exists k int :: 0 <= k && k < rangeidx && (specForbids(specDir(sid(ccHeader), k)) || (specIsMaxAge(specDir(sid(ccHeader), k)) && specMaxAge(specDir(sid(ccHeader), k)) < 1)))
+
+// net/http never hands out a header map with an empty value list.
+//@ spec func specLineForbids(v string) bool = exists k int :: 0 <= k && k < splitlen(sid(v), ",") && (specForbids(specDir(sid(v), k)) || (specIsMaxAge(specDir(sid(v), k)) && specMaxAge(specDir(sid(v), k)) < 1))
+//@ props C16 C04 C03
+//@ func ParseHeaderDirective
+//@   nopanic
+//@   requires forall k key :: in(header, k) ==> len(header[k]) > 0
+//@   ensures result != nil
+//@   ensures [C04] in(header, "Cache-Control") <==> result.CacheControl.value.some
+//@   ensures [C04] in(header, "Cache-Control") ==> (forall i int :: 0 <= i && i < len(header["Cache-Control"]) && specLineForbids(header["Cache-Control"][i]) ==> result.CacheControl.value.value.noCache)
+//@   ensures [C04] in(header, "Expires") <==> result.Expires.value.some
+//@   ensures [C03] in(header, "Expires") && !timeparse_ok(sid(header["Expires"][0])) ==> result.Expires.value.value == 0
+//@   ensures [C03] in(header, "Expires") && timeparse_ok(sid(header["Expires"][0])) ==> result.Expires.value.value == timeparse_val(sid(header["Expires"][0]))
+//@   loop 1 invariant hd != nil && (forall k key :: in(header, k) ==> len(header[k]) > 0)
+//@   loop 1 invariant visited[sid("Cache-Control")] <==> hd.CacheControl.value.some
+//@   loop 1 invariant visited[sid("Cache-Control")] ==> in(header, "Cache-Control") && (forall i int :: 0 <= i && i < len(header["Cache-Control"]) && specLineForbids(header["Cache-Control"][i]) ==> hd.CacheControl.value.value.noCache)
+//@   loop 1 invariant visited[sid("Expires")] <==> hd.Expires.value.some
+//@   loop 1 invariant visited[sid("Expires")] ==> in(header, "Expires") && (!timeparse_ok(sid(header["Expires"][0])) ==> hd.Expires.value.value == 0) && (timeparse_ok(sid(header["Expires"][0])) ==> hd.Expires.value.value == timeparse_val(sid(header["Expires"][0])))
+
+// A response may be stored unless Cache-Control forbids it (no-store, no-cache,
+// private, max-age below one second), Expires is in the past, or the request
+// was a Range request; with ignoreCacheControl only the Range test remains.
+//@ props C16 C04
+//@ func HeaderDirectives.ShouldCache
+//@   nopanic
+//@   ensures [C04] result <==> ((ignoreCacheControl || !hd.CacheControl.value.some || (!hd.CacheControl.value.value.noCache && hd.CacheControl.value.value.maxAge >= 1)) && (ignoreCacheControl || !hd.Expires.value.some || !(hd.Expires.value.value < now)) && !hd.Range.value.some)
+
+// Lifetime: the configured default when forced; else max-age; else Expires
+// (an unparseable date was stored as the zero time, i.e. long past); else the default.
+//@ props C16 C03
+//@ func HeaderDirectives.GetExpiresOrDefault
+//@   nopanic
+//@   ensures [C03] forceDefaultCacheMaxAge ==> result == now + defaultCacheMaxAge
+//@   ensures [C03] !forceDefaultCacheMaxAge && hd.CacheControl.value.some && hd.CacheControl.value.value.maxAge > 0 ==> result == now + hd.CacheControl.value.value.maxAge
+//@   ensures [C03] !forceDefaultCacheMaxAge && !(hd.CacheControl.value.some && hd.CacheControl.value.value.maxAge > 0) && hd.Expires.value.some ==> result == hd.Expires.value.value
+//@   ensures [C03] !forceDefaultCacheMaxAge && !(hd.CacheControl.value.some && hd.CacheControl.value.value.maxAge > 0) && !hd.Expires.value.some ==> result == now + defaultCacheMaxAge
+
+//@ props C16 C06
+//@ func HeaderDirectives.StripRegularConditionals
+//@   nopanic
